@@ -947,7 +947,13 @@ pub fn run(seed: u64, run: u64) -> Report {
 }
 
 fn minimise(c: &Cfg, world: &World, scn: &Scenario, sig: &str) -> Scenario {
+    // bounded effort: every candidate costs several process executions
+    let budget = std::cell::Cell::new(120usize);
     let fails = |s: &Scenario| {
+        if budget.get() == 0 {
+            return false;
+        }
+        budget.set(budget.get() - 1);
         let r = run_scenario(c, world, s);
         matches!(&r.violation, Some(vi) if signature(s, vi, r.under_fault) == sig)
     };
